@@ -111,7 +111,9 @@ def handleEngine (o : Option (List Char)) (eng : String) (q text : List Char) (i
   -- the model's prediction
   let predicted : Option (Option (Tuple × String)) :=      -- none = cannot predict, some none = no match
     match eng with
-    | "all" => some (some ({ score := 0, begin := 0, «end» := 0, length := len }, "B0,0"))
+    -- `regexbad`: the regex engine with an expression that does not compile — it filters nothing out and reports (0,0),
+    -- and the length criterion is still the item's length
+    | "all" | "regexbad" => some (some ({ score := 0, begin := 0, «end» := 0, length := len }, "B0,0"))
     | "exact" | "regex" =>
       if q.isEmpty then some (some ({ score := 0, begin := 0, «end» := 0, length := len }, "B0,0"))
       else match findSub q text 0 with
